@@ -32,7 +32,7 @@ Fixpoint sval_eqb (a b : sval) {struct a} : bool :=
   | STuple v1, STuple v2 => all v1 v2
   | SFunc d1 i1 o1, SFunc d2 i2 o2 => fsig_eqb d1 d2 && rows_sameb i1 i2 && rows_sameb o1 o2
   | SExt n1 t1 p1 e1, SExt n2 t2 p2 e2 =>
-      cname_eqb n1 n2 && same_tyb t1 t2 && payload_eqb p1 p2 && list_eqb N.eqb e1 e2
+      cname_eqb n1 n2 && same_tyb t1 t2 && payload_eqb p1 p2 && seteq_b N.eqb e1 e2   (* extension sets: no order promised *)
   | _, _ => false
   end
 with payload_eqb (a b : spayload) {struct a} : bool :=
@@ -89,7 +89,7 @@ Definition shape_ok (std : stddefs) (e : vexpr) (t : ty) (s : sval) : bool :=
       match sum_rows t with Some [l; r] => len_eq r vs && rows_sameb l lts | _ => false end
   | EFunc sig, SFunc _ _ _ => same_tyb t (TFunc (fs_in sig) (fs_out sig) (fs_reqs sig))
   | EExt nm typ exts, SExt nm' typ' SPOther exts' =>
-      cname_eqb nm nm' && same_tyb typ typ' && same_tyb t typ && list_eqb N.eqb exts exts'
+      cname_eqb nm nm' && same_tyb typ typ' && same_tyb t typ && seteq_b N.eqb exts exts'
   | EInt v w, SExt CInt _ (SPInt w' v') exts =>
       Nat.eqb w w' && Z.eqb v v' && same_tyb t (s_int std w) && has_ext (td_ext (d_int std)) exts
   | EFloat, SExt CF64 _ SPFloat exts => same_tyb t (s_float std) && has_ext (td_ext (d_float std)) exts
